@@ -30,7 +30,8 @@ open Fmt
 
 /-- every NaN prints as `NaN`; the payload is not expressible in the format -/
 def isNaN (b : UInt64) : Bool :=
-  (b &&& 0x7FF0000000000000) == 0x7FF0000000000000 && (b &&& 0x000FFFFFFFFFFFFF) != 0
+  -- exponent field all ones, fraction field non-zero (the same expression as `F64.isNaN`)
+  ((b >>> 52) &&& 0x7FF).toNat == 2047 && (b &&& 0xFFFFFFFFFFFFF).toNat != 0
 
 def normNum (b : UInt64) : UInt64 := if isNaN b then 0x7FF8000000000001 else b
 
